@@ -34,6 +34,7 @@ DOMAINS = {  # VDOM id -> name (see harness/h_dom.cpp)
     20: "generic-wrapper-sdbm", 21: "generic-wrapper-intervals", 22: "split-dbm-bignum",
     25: "sparse-dbm-int64", 26: "split-dbm-int64", 6: "sparse-dbm-safe", 7: "split-dbm-safe", 8: "split-oct-safe",
     3: "signs", 4: "sign-constants", 5: "ric", 24: "congruences",
+    10: "term-intervals", 11: "term-sdbm", 12: "product-term-dis-sdbm", 17: "powerset-intervals", 16: "lookahead-soct",
 }
 
 def dom_components(tag, quick, thorough, ids=None):
@@ -60,6 +61,15 @@ DOM_ASSUME = [
     "int64-weight DBM instantiations get constants below 10^5 (documented unchecked arithmetic); SafeInt64 / bignum instantiations get large constants",
     "witness sets are samples of the collecting semantics: a violation is a concrete failing input, absence of violation is not a proof for the unmodelled domains",
 ]
+
+def prog_components(tag, quick, thorough, ids=(1, 7, 8, 9, 14, 26)):
+    return [{"harness": f"h_prog_{d}", "source": "h_prog", "defines": [f"-DVDOM={d}"],
+             "quick": quick, "thorough": thorough, "shards": 1, "corpus": "h_prog",
+             "nontrivial": lambda l: l.count("(stmts") >= 3 and "(assert" in l,
+             "accept": (lambda tag: lambda v, req, msg: tag in msg or v in ("DRIFT", "BAD"))(tag)}
+            for d in ids]
+
+PROG_RULE = ("generated well-typed CrabIR programs (2-8 blocks quick, up to 14 thorough: chains, diamonds, simple/nested/irreducible loops with counters and guards, self loops, blocks not reaching exit, unreachable blocks and statements, true/false/sometimes-false asserts; integer and boolean statements of every kind) analysed by the REAL intra_fwd_analyzer (and intra_forward_backward_analyzer) with random fixpoint parameters and liveness pruning on/off over 6 domains; the Lean driver runs hundreds of concrete executions per program (initial states inside the declared box, boundary-directed havoc values and successor choices) and checks every visited (block, state) against the exported invariants and every assertion verdict; a violation is replayed before it is reported; non-trivial = at least 3 blocks and an assert")
 
 PROPS = {
     "C08": {
@@ -116,8 +126,8 @@ PROPS = {
     },
     "C01": {
         "level": "proof",
-        "lean_modules": ["CrabProofs.Props.C01Engine"],
-        "components": [FIX_COMPONENT],
+        "lean_modules": ["CrabProofs.Props.C01Engine", "CrabProofs.Props.C01Prog"],
+        "components": [FIX_COMPONENT] + prog_components("[C01]", 500, 6000, ids=(1, 7, 8, 9, 26)),  # 14 (flat boolean) joins when its two defects are repaired
         "rule": PROPS_C06_RULE if False else "see C06 (same iterator harness): random CFGs x relations x start blocks x assumption maps x delay/descending x widening/narrowing modes; every table entry of the real iterator must contain the Kleene least solution",
         "assumptions": ["engine level only so far: the statement->operation mapping of intra_abs_transformer and the shipped domains enter through the Sem contract (domain operations are exercised by the C03 history harness)"],
         "trusted_base": COMMON_TB + ["model: CrabModel/Fix/Interleaved.lean; semantics: CrabModel/Fix/Semantics.lean"],
@@ -171,5 +181,49 @@ PROPS = {
         "rule": "separate_domain<Key, interval> and patricia_tree_set/discrete_domain with freely chosen 64-bit indices (dense, sparse, high bits, adversarial common prefixes): single operations on operands rebuilt from text, operands derived from each other (physical sharing) and whole histories over a pool of 6 environments; every answer compared with the tree model (pointer-equality oracle always false AND structural) and with a plain association-list spec map; non-trivial = at least 3 bindings involved",
         "assumptions": ["widening_thresholds and transform of separate_domain are not modelled", "rename follows the documented precondition (targets unbound)"],
         "trusted_base": COMMON_TB + ["models: CrabModel/Container/{Patricia,SeparateDomain,PSet}.lean"],
+    },
+    "C12": {
+        "level": "proof",
+        "lean_modules": ["CrabProofs.Props.C12"],
+        "components": (
+            [{"harness": f"h_exact_{d}", "source": "h_exact", "defines": [f"-DVDOM={d}"], "quick": 500, "thorough": 20000,
+              "shards": 1, "corpus": f"h_exact_{d}",
+              "nontrivial": lambda l: "(assume" in l and ("(join" in l or "(meet" in l or "(forget" in l)}
+             for d in [1, 26, 7, 22, 25, 6, 27, 8]] +
+            [{"harness": f"h_exact_{d}", "source": "h_exact", "defines": [f"-DVDOM={d}"], "quick": 150, "thorough": 5000,
+              "shards": 1, "corpus": f"h_exact_{d}",
+              "nontrivial": lambda l: "(assume" in l and ("(join" in l or "(meet" in l or "(forget" in l)}
+             for d in [14, 15, 18, 19, 28, 29]]),
+        "rule": "random conjunctions of in-language constraints (unit coefficients, constants small and large; satisfiable, unsatisfiable, integer-only contradictions) over 1-7 variables, added in random order and interleaved with copies, joins, meets, forgets over a pool of 3 values, under randomised closure parameters; after every step is_bottom, operator[](v) and entails(c) for a battery of in-language constraints are compared with the proved-exact Lean model (zones / octagons / interval environments); wrappers (flat boolean, array smashing/adaptive, product) are compared with their base",
+        "assumptions": ["int64 DBM weights: constants below ~3.6*10^7 (documented unchecked arithmetic)", "precision claims use operator[] (normalising); at() is only checked for soundness"],
+        "trusted_base": COMMON_TB + ["models: CrabModel/Dom/{Dbm,Zones,Octagon,ItvEnv}.lean"],
+    },
+    "C17": {
+        "level": "proof",
+        "lean_modules": ["CrabProofs.Props.C17", "CrabProofs.Props.C17Simplify"],
+        "components": [{"harness": "h_xform", "quick": 12000, "thorough": 400000, "shards": 4,
+                        "nontrivial": lambda l: l.startswith("(xf.") and (lambda m: bool(m) and m.group(1) != m.group(2))(re.search(r"\(orig (.*)\) \(res (.*)\) \(order", l)),
+                        "accept": lambda v, req, msg: "[C17]" in msg or (v in ("DRIFT", "BAD") and req.startswith("(xf."))}],
+        "rule": "random programs (1-10 blocks: chains, diamonds, loops, self loops, unreachable blocks, blocks not reaching exit, unreachable statements, dead assignments, asserts) transformed by the real simplify / dead_code_elimination / lower_safe_assertions; original and IMPLEMENTATION-transformed program are executed on the same inputs and choice streams and their observable traces compared; the transformed CFG must be well formed and equal to the model's; non-trivial = the transformation changed the program",
+        "assumptions": ["all variables have a value at entry", "behaviour comparison requires an exit block without successors; otherwise only model equality and well-formedness", "runs in which the original divides by zero are skipped (a dead x/0 blocks the original only)"],
+        "trusted_base": COMMON_TB + ["models: CrabModel/Transform/{TIR,Simplify,Dce}.lean"],
+    },
+    "C18": {
+        "level": "proof",
+        "lean_modules": ["CrabProofs.Props.C18"],
+        "components": [{"harness": "h_xform", "quick": 12000, "thorough": 400000, "shards": 4,
+                        "nontrivial": lambda l: l.startswith("(live."),
+                        "accept": lambda v, req, msg: "[C18]" in msg or (v in ("DRIFT", "BAD") and req.startswith("(live."))}],
+        "rule": "same program generator; the real liveness_analysis results (live at block end, dead_exit) are compared with the model of the coded equations run on the implementation's own block order, with the specification liveness (implementation dead must be spec dead), and by paired executions differing only in a reported-dead variable; the assertion crawler is not driven",
+        "assumptions": ["block order of run_bwd_fixpo is an input of the model (read from the implementation)"],
+        "trusted_base": COMMON_TB + ["models: CrabModel/Transform/{TIR,Liveness}.lean"],
+    },
+    "C02": {
+        "level": "proof",
+        "lean_modules": ["CrabProofs.Props.C02"],
+        "components": prog_components("[C02]", 500, 6000),
+        "rule": PROG_RULE,
+        "assumptions": ["concrete semantics of DESIGN.md 2.3; executions that hit an operation crab gives no meaning to are not counted", "the inter-procedural checker is covered by C09's harness"],
+        "trusted_base": COMMON_TB + ["semantics: CrabModel/IR/{Syntax,Semantics}.lean; checker model: CrabModel/Analysis/Checker.lean"],
     },
 }
